@@ -182,7 +182,9 @@ var nestGens = map[string][]nestGen{
 		{"array-chain", func(n int) []byte {
 			return []byte(`{"http://e/s":{"http://e/p":[{"type":"literal","value":"v","x":` + rep(`[`, n) + rep(`]`, n) + `}]}}`)
 		}},
-		{"object-chain", func(n int) []byte { return []byte(`{"http://e/s":` + rep(`{"http://e/p":`, n) + `1` + rep(`}`, n) + `}`) }},
+		{"object-chain", func(n int) []byte {
+			return []byte(`{"http://e/s":` + rep(`{"http://e/p":`, n) + `1` + rep(`}`, n) + `}`)
+		}},
 		{"unclosed", func(n int) []byte { return []byte(rep(`{"a":[`, n)) }},
 		{"wide", func(n int) []byte {
 			var sb strings.Builder
@@ -222,7 +224,9 @@ var nestGens = map[string][]nestGen{
 	"ttl": {
 		{"bnode-plist-chain", func(n int) []byte { return []byte(ttlHead + `:s :p ` + rep(`[ :p `, n) + `1` + rep(` ]`, n) + " .\n") }},
 		{"collection-chain", func(n int) []byte { return []byte(ttlHead + `:s :p ` + rep(`( `, n) + `1` + rep(` )`, n) + " .\n") }},
-		{"mixed-chain", func(n int) []byte { return []byte(ttlHead + `:s :p ` + rep(`[ :p ( `, n) + `1` + rep(` ) ]`, n) + " .\n") }},
+		{"mixed-chain", func(n int) []byte {
+			return []byte(ttlHead + `:s :p ` + rep(`[ :p ( `, n) + `1` + rep(` ) ]`, n) + " .\n")
+		}},
 		{"subject-collection-chain", func(n int) []byte { return []byte(ttlHead + rep(`( `, n) + rep(` )`, n) + " :p 1 .\n") }},
 		{"unclosed", func(n int) []byte { return []byte(ttlHead + `:s :p ` + rep(`[ :p ( `, n)) }},
 		{"wide-object-list", func(n int) []byte { return []byte(ttlHead + `:s :p 1` + rep(`, 1`, n) + rep(`; :q "x"`, n) + " .\n") }},
@@ -253,7 +257,9 @@ var nestGens = map[string][]nestGen{
 		{"inlist-wide", func(n int) []byte {
 			return []byte(`<html><body vocab="http://v/" about="#s">` + rep(`<span property="p" inlist="">x</span>`, n) + `</body></html>`)
 		}},
-		{"unclosed-mixed", func(n int) []byte { return []byte(`<html><body>` + rep(`<div typeof="T" itemscope><table><tr><td><a rel="r" href="h">`, n)) }},
+		{"unclosed-mixed", func(n int) []byte {
+			return []byte(`<html><body>` + rep(`<div typeof="T" itemscope><table><tr><td><a rel="r" href="h">`, n))
+		}},
 		{"script-jsonld-deep", func(n int) []byte {
 			return []byte(`<html><head><script type="application/ld+json">{"http://e/p":` + rep(`{"http://e/p":`, n) + `1` + rep(`}`, n) + `}</script></head></html>`)
 		}},
@@ -303,22 +309,44 @@ var hugeGens = map[string][]hugeGen{
 		{"escapes", func(n int) []byte { return []byte(`{"http://e/p":"` + big(`\u00e9`, n) + `"}`) }},
 		{"whitespace", func(n int) []byte { return []byte(`{` + big(" ", n) + `"http://e/p":1}`) }},
 		{"id", func(n int) []byte { return []byte(`{"@id":"http://e/` + big("i", n) + `","http://e/p":1}`) }},
-		{"language", func(n int) []byte { return []byte(`{"http://e/p":{"@value":"v","@language":"` + big("en-", n) + `x"}}`) }},
+		{"language", func(n int) []byte {
+			return []byte(`{"http://e/p":{"@value":"v","@language":"` + big("en-", n) + `x"}}`)
+		}},
 		{"unterminated-string", func(n int) []byte { return []byte(`{"http://e/p":"` + big("a", n)) }},
 	},
 	"rdfjson": {
-		{"string-value", func(n int) []byte { return []byte(`{"http://e/s":{"http://e/p":[{"type":"literal","value":"` + big("a", n) + `"}]}}`) }},
-		{"subject", func(n int) []byte { return []byte(`{"http://e/` + big("s", n) + `":{"http://e/p":[{"type":"uri","value":"http://e/o"}]}}`) }},
-		{"bnode", func(n int) []byte { return []byte(`{"_:` + big("b", n) + `":{"http://e/p":[{"type":"bnode","value":"_:` + big("c", n) + `"}]}}`) }},
+		{"string-value", func(n int) []byte {
+			return []byte(`{"http://e/s":{"http://e/p":[{"type":"literal","value":"` + big("a", n) + `"}]}}`)
+		}},
+		{"subject", func(n int) []byte {
+			return []byte(`{"http://e/` + big("s", n) + `":{"http://e/p":[{"type":"uri","value":"http://e/o"}]}}`)
+		}},
+		{"bnode", func(n int) []byte {
+			return []byte(`{"_:` + big("b", n) + `":{"http://e/p":[{"type":"bnode","value":"_:` + big("c", n) + `"}]}}`)
+		}},
 	},
 	"rdfxml": {
-		{"text", func(n int) []byte { return []byte(xmlHead + `<rdf:Description rdf:about="http://e/s"><e:p>` + big("t", n) + `</e:p></rdf:Description></rdf:RDF>`) }},
-		{"attr", func(n int) []byte { return []byte(xmlHead + `<rdf:Description rdf:about="http://e/` + big("a", n) + `"><e:p>v</e:p></rdf:Description></rdf:RDF>`) }},
-		{"name", func(n int) []byte { return []byte(xmlHead + `<rdf:Description rdf:about="http://e/s"><e:` + big("n", n) + `>v</e:` + big("n", n) + `></rdf:Description></rdf:RDF>`) }},
-		{"comment", func(n int) []byte { return []byte(xmlHead + `<!--` + big("c", n) + `--><rdf:Description rdf:about="http://e/s"><e:p>v</e:p></rdf:Description></rdf:RDF>`) }},
-		{"cdata", func(n int) []byte { return []byte(xmlHead + `<rdf:Description rdf:about="http://e/s"><e:p><![CDATA[` + big("]", n) + `]]></e:p></rdf:Description></rdf:RDF>`) }},
-		{"xmlliteral", func(n int) []byte { return []byte(xmlHead + `<rdf:Description rdf:about="http://e/s"><e:p rdf:parseType="Literal">` + big("<b/>", n) + `</e:p></rdf:Description></rdf:RDF>`) }},
-		{"entities", func(n int) []byte { return []byte(xmlHead + `<rdf:Description rdf:about="http://e/s"><e:p>` + big("&amp;", n) + `</e:p></rdf:Description></rdf:RDF>`) }},
+		{"text", func(n int) []byte {
+			return []byte(xmlHead + `<rdf:Description rdf:about="http://e/s"><e:p>` + big("t", n) + `</e:p></rdf:Description></rdf:RDF>`)
+		}},
+		{"attr", func(n int) []byte {
+			return []byte(xmlHead + `<rdf:Description rdf:about="http://e/` + big("a", n) + `"><e:p>v</e:p></rdf:Description></rdf:RDF>`)
+		}},
+		{"name", func(n int) []byte {
+			return []byte(xmlHead + `<rdf:Description rdf:about="http://e/s"><e:` + big("n", n) + `>v</e:` + big("n", n) + `></rdf:Description></rdf:RDF>`)
+		}},
+		{"comment", func(n int) []byte {
+			return []byte(xmlHead + `<!--` + big("c", n) + `--><rdf:Description rdf:about="http://e/s"><e:p>v</e:p></rdf:Description></rdf:RDF>`)
+		}},
+		{"cdata", func(n int) []byte {
+			return []byte(xmlHead + `<rdf:Description rdf:about="http://e/s"><e:p><![CDATA[` + big("]", n) + `]]></e:p></rdf:Description></rdf:RDF>`)
+		}},
+		{"xmlliteral", func(n int) []byte {
+			return []byte(xmlHead + `<rdf:Description rdf:about="http://e/s"><e:p rdf:parseType="Literal">` + big("<b/>", n) + `</e:p></rdf:Description></rdf:RDF>`)
+		}},
+		{"entities", func(n int) []byte {
+			return []byte(xmlHead + `<rdf:Description rdf:about="http://e/s"><e:p>` + big("&amp;", n) + `</e:p></rdf:Description></rdf:RDF>`)
+		}},
 	},
 	"ttl": {
 		{"iri", func(n int) []byte { return []byte(`<http://e/` + big("a", n) + `> <http://e/p> 1 .`) }},
@@ -341,14 +369,30 @@ var hugeGens = map[string][]hugeGen{
 		{"uchar", func(n int) []byte { return []byte(`<http://e/s> <http://e/p> "` + big(`\u00e9`, n) + "\" .\n") }},
 	},
 	"html": {
-		{"text", func(n int) []byte { return []byte(`<html><body vocab="http://v/"><p property="p" itemscope><span itemprop="q">` + big("t", n) + `</span></p></body></html>`) }},
-		{"attr", func(n int) []byte { return []byte(`<html><body vocab="http://v/"><p property="p" content="` + big("c", n) + `" itemscope itemid="http://e/` + big("i", n) + `">x</p></body></html>`) }},
-		{"property-list", func(n int) []byte { return []byte(`<html><body vocab="http://v/"><p property="` + big("p ", n) + `" itemscope><span itemprop="` + big("q ", n) + `">x</span></p></body></html>`) }},
-		{"prefix-list", func(n int) []byte { return []byte(`<html><body prefix="` + big("a: http://a/ ", n) + `"><p property="a:p">x</p></body></html>`) }},
-		{"comment", func(n int) []byte { return []byte(`<html><!--` + big("c", n) + `--><body vocab="http://v/"><p property="p">x</p></body></html>`) }},
-		{"script", func(n int) []byte { return []byte(`<html><head><script type="application/ld+json">{"http://e/p":"` + big("a", n) + `"}</script></head></html>`) }},
-		{"tagname", func(n int) []byte { return []byte(`<html><body><` + big("x", n) + ` property="p" vocab="http://v/">v</body></html>`) }},
-		{"xmlliteral", func(n int) []byte { return []byte(`<html><body vocab="http://v/" prefix="rdf: http://www.w3.org/1999/02/22-rdf-syntax-ns#"><p property="p" datatype="rdf:XMLLiteral">` + big("<b>x</b>", n) + `</p></body></html>`) }},
+		{"text", func(n int) []byte {
+			return []byte(`<html><body vocab="http://v/"><p property="p" itemscope><span itemprop="q">` + big("t", n) + `</span></p></body></html>`)
+		}},
+		{"attr", func(n int) []byte {
+			return []byte(`<html><body vocab="http://v/"><p property="p" content="` + big("c", n) + `" itemscope itemid="http://e/` + big("i", n) + `">x</p></body></html>`)
+		}},
+		{"property-list", func(n int) []byte {
+			return []byte(`<html><body vocab="http://v/"><p property="` + big("p ", n) + `" itemscope><span itemprop="` + big("q ", n) + `">x</span></p></body></html>`)
+		}},
+		{"prefix-list", func(n int) []byte {
+			return []byte(`<html><body prefix="` + big("a: http://a/ ", n) + `"><p property="a:p">x</p></body></html>`)
+		}},
+		{"comment", func(n int) []byte {
+			return []byte(`<html><!--` + big("c", n) + `--><body vocab="http://v/"><p property="p">x</p></body></html>`)
+		}},
+		{"script", func(n int) []byte {
+			return []byte(`<html><head><script type="application/ld+json">{"http://e/p":"` + big("a", n) + `"}</script></head></html>`)
+		}},
+		{"tagname", func(n int) []byte {
+			return []byte(`<html><body><` + big("x", n) + ` property="p" vocab="http://v/">v</body></html>`)
+		}},
+		{"xmlliteral", func(n int) []byte {
+			return []byte(`<html><body vocab="http://v/" prefix="rdf: http://www.w3.org/1999/02/22-rdf-syntax-ns#"><p property="p" datatype="rdf:XMLLiteral">` + big("<b>x</b>", n) + `</p></body></html>`)
+		}},
 	},
 }
 
